@@ -34,11 +34,24 @@ def endErr : Sched → RdErr
 /-- no (0, error) entry -/
 def NoFail (s : Sched) : Prop := ∀ r ∈ s, r ≠ Rd.fail
 
+/-- `(0, io.EOF)` or `(0, error)` -/
+def Rd.isEnd : Rd → Bool
+  | .zeroEof => true
+  | .fail => true
+  | _ => false
+
 /-- well formed: after a byte delivered together with io.EOF only (0,EOF)/(0,error) follow -/
 def WF : Sched → Bool
   | [] => true
-  | .byte _ true :: rest => rest.all (fun r => r == .zeroEof || r == .fail)
+  | .byte _ true :: rest => rest.all Rd.isEnd
   | _ :: rest => WF rest
+
+/-- no byte is delivered after a (0, EOF) or (0, error) read -/
+def EndsOnce : Sched → Bool
+  | [] => true
+  | .zeroEof :: rest => (bytesOf rest).isEmpty
+  | .fail :: rest => (bytesOf rest).isEmpty
+  | _ :: rest => EndsOnce rest
 
 /-- tame for the scanner: no (0, error) entry is reached and no byte follows a (0, EOF) entry
     (the scanner stops at the first (0, EOF); what follows it is never read) -/
@@ -114,7 +127,7 @@ theorem endErr_noFail (s : Sched) (h : NoFail s) : endErr s = .eof := by
     | zeroEof => rfl
     | fail => exact absurd rfl (h Rd.fail (List.mem_cons_self ..))
 
-theorem upToEnd_noEnd (s : Sched) (h : ∀ r ∈ s, r ≠ Rd.fail ∧ r ≠ Rd.zeroEof) : upToEnd s = s := by
+theorem upToEnd_noEnd (s : Sched) (h : ∀ r ∈ s, r.isEnd = false) : upToEnd s = s := by
   induction s with
   | nil => rfl
   | cons r s ih =>
@@ -123,8 +136,66 @@ theorem upToEnd_noEnd (s : Sched) (h : ∀ r ∈ s, r ≠ Rd.fail ∧ r ≠ Rd.z
     cases r with
     | byte c e => simp [upToEnd, h']
     | zero => simp [upToEnd, h']
-    | zeroEof => exact absurd rfl hr.2
-    | fail => exact absurd rfl hr.1
+    | zeroEof => simp [Rd.isEnd] at hr
+    | fail => simp [Rd.isEnd] at hr
+
+theorem upToEnd_append_noEnd (a b : Sched) (h : ∀ r ∈ a, r.isEnd = false) :
+    upToEnd (a ++ b) = a ++ upToEnd b := by
+  induction a with
+  | nil => rfl
+  | cons r a ih =>
+    have h' := ih (fun x hx => h x (List.mem_cons_of_mem _ hx))
+    have hr := h r (List.mem_cons_self ..)
+    cases r with
+    | byte c e => simp [upToEnd, h']
+    | zero => simp [upToEnd, h']
+    | zeroEof => simp [Rd.isEnd] at hr
+    | fail => simp [Rd.isEnd] at hr
+
+theorem upToEnd_allEnd (s : Sched) (h : s.all Rd.isEnd = true) : upToEnd s = [] := by
+  cases s with
+  | nil => rfl
+  | cons r s =>
+    cases r with
+    | byte c e => simp [Rd.isEnd] at h
+    | zero => simp [Rd.isEnd] at h
+    | zeroEof => rfl
+    | fail => rfl
+
+theorem bytesOf_upToEnd_nil (s : Sched) (h : bytesOf s = []) : bytesOf (upToEnd s) = [] := by
+  induction s with
+  | nil => rfl
+  | cons r s ih =>
+    cases r with
+    | byte c e => simp [bytesOf] at h
+    | zero => simp only [bytesOf] at h; simpa [upToEnd, bytesOf] using ih h
+    | zeroEof => rfl
+    | fail => rfl
+
+theorem bytesOf_upToEnd (s : Sched) (h : EndsOnce s = true) : bytesOf (upToEnd s) = bytesOf s := by
+  induction s with
+  | nil => rfl
+  | cons r s ih =>
+    cases r with
+    | byte c e => simp only [EndsOnce] at h; simp [upToEnd, bytesOf, ih h]
+    | zero => simp only [EndsOnce] at h; simp [upToEnd, bytesOf, ih h]
+    | zeroEof => simp only [EndsOnce, List.isEmpty_iff] at h; simp [upToEnd, bytesOf, h]
+    | fail => simp only [EndsOnce, List.isEmpty_iff] at h; simp [upToEnd, bytesOf, h]
+
+/-- in a well-formed schedule a byte delivered with io.EOF is followed by end entries only -/
+theorem wf_after_eof_byte (a : Sched) (b : Char) (r : Sched)
+    (h : WF (a ++ .byte b true :: r) = true) : r.all Rd.isEnd = true := by
+  induction a with
+  | nil => simpa [WF] using h
+  | cons x a ih =>
+    cases x with
+    | byte c e =>
+      cases e with
+      | false => exact ih (by simpa [WF] using h)
+      | true => simp [WF, Rd.isEnd] at h
+    | zero => exact ih (by simpa [WF] using h)
+    | zeroEof => exact ih (by simpa [WF] using h)
+    | fail => exact ih (by simpa [WF] using h)
 
 /-! ### the scanner, one byte at a time -/
 
@@ -366,5 +437,152 @@ theorem step_first_open : stepJ '{' {} = .inr (inObj ['{'] 0) := by
 theorem step_lead (c : Char) (h : c ≠ '{' ∧ c ≠ '}' ∧ c ≠ '"') : stepJ c {} = .inr {} := by
   obtain ⟨h1, h2, h3⟩ := h
   simp [stepJ, h1, h2, h3]
+
+/-! ### the scanner on generated texts -/
+
+theorem getJson_plain_cons (c : Char) (x : Str) (st : JState) :
+    getJson (plain (c :: x)) st =
+      match stepJ c st with
+      | .inl r => (r, plain x)
+      | .inr st' => getJson (plain x) st' := by
+  rw [plain_cons, getJson_byte]
+
+/-- a string body up to and including its closing quote -/
+theorem scan_body (body : List StrCh) : ∀ (jb : Str) (p : Nat) (k : Str),
+    getJson (plain (flatBody body ++ '"' :: k)) (inStr jb p false)
+      = getJson (plain k) (inObj ('"' :: ((flatBody body).reverse ++ jb)) p) := by
+  induction body with
+  | nil => intro jb p k; simp [flatBody, getJson_plain_cons, step_str_close]
+  | cons x xs ih =>
+    intro jb p k
+    cases x with
+    | plain c h =>
+      simp only [flatBody, StrCh.flat, List.cons_append, List.nil_append, getJson_plain_cons,
+        step_str_plain c h, ih]
+      simp
+    | esc c =>
+      simp only [flatBody, StrCh.flat, List.cons_append, List.nil_append, getJson_plain_cons,
+        step_str_bs, step_str_escaped, ih]
+      simp
+
+mutual
+/-- one item inside an object: the scanner appends its text minus outer white space and stays
+    at the same depth, outside strings -/
+theorem scan_item : ∀ (i : Item) (jb : Str) (p : Nat) (k : Str),
+    getJson (plain (flat i ++ k)) (inObj jb p)
+      = getJson (plain k) (inObj ((flatNoWs i).reverse ++ jb) p)
+  | .ch c h, jb, p, k => by
+      simp [flat, flatNoWs, getJson_plain_cons, step_ch c h]
+  | .ws c h, jb, p, k => by
+      simp [flat, flatNoWs, getJson_plain_cons, step_ws c h]
+  | .str b, jb, p, k => by
+      simp only [flat, flatNoWs, List.cons_append, List.append_assoc, List.nil_append,
+        getJson_plain_cons, step_str_open, scan_body]
+      simp
+  | .obj items, jb, p, k => by
+      simp only [flat, flatNoWs, List.cons_append, List.append_assoc, List.nil_append,
+        getJson_plain_cons, step_open, scan_items items, step_close]
+      simp
+theorem scan_items : ∀ (is : List Item) (jb : Str) (p : Nat) (k : Str),
+    getJson (plain (flatList is ++ k)) (inObj jb p)
+      = getJson (plain k) (inObj ((flatNoWsList is).reverse ++ jb) p)
+  | [], jb, p, k => by simp [flatList, flatNoWsList]
+  | i :: is, jb, p, k => by
+      simp only [flatList, flatNoWsList, List.append_assoc, scan_item i, scan_items is]
+      simp
+end
+
+theorem scan_lead (lead : Str) (h : ∀ c ∈ lead, c ≠ '{' ∧ c ≠ '}' ∧ c ≠ '"') (k : Str) :
+    getJson (plain (lead ++ k)) {} = getJson (plain k) {} := by
+  induction lead with
+  | nil => rfl
+  | cons c l ih =>
+    rw [List.cons_append, getJson_plain_cons, step_lead c (h c (List.mem_cons_self ..))]
+    exact ih (fun x hx => h x (List.mem_cons_of_mem _ hx))
+
+/-- a whole object from the initial state -/
+theorem getJson_obj (lead : Str) (hlead : ∀ c ∈ lead, c ≠ '{' ∧ c ≠ '}' ∧ c ≠ '"')
+    (items : List Item) (rest : Str) :
+    getJson (plain (lead ++ flat (.obj items) ++ rest)) {}
+      = (.doc (flatNoWs (.obj items)), plain rest) := by
+  rw [List.append_assoc, scan_lead lead hlead]
+  simp only [flat, flatNoWs, List.cons_append, List.append_assoc, List.nil_append,
+    getJson_plain_cons, step_first_open, scan_items items, step_close_last]
+  simp
+
+/-- only skippable characters up to the end of input: EOF with nothing collected -/
+theorem getJson_trail (trail : Str) (h : ∀ c ∈ trail, c ≠ '{' ∧ c ≠ '}' ∧ c ≠ '"') :
+    getJson (plain trail) {} = (.eof [], []) := by
+  have := scan_lead trail h []
+  rw [List.append_nil] at this
+  rw [this]; simp [plain_nil, getJson_nil, endRes]
+
+/-! ### reading a stream of documents -/
+
+/-- call `getJson` from the initial state until it returns something else than a document;
+    result: the documents in order and the final non-document result -/
+def readAll : Nat → Sched → List Str × Option JRes
+  | 0, _ => ([], none)
+  | f + 1, s =>
+    match getJson s {} with
+    | (.doc raw, rest) => let (ds, e) := readAll f rest; (raw :: ds, e)
+    | (r, _) => ([], some r)
+
+/-- the text of a stream of documents: each an object preceded by skippable characters -/
+def docsText : List (Str × List Item) → Str
+  | [] => []
+  | d :: ds => d.1 ++ flat (.obj d.2) ++ docsText ds
+
+theorem readAll_docs (docs : List (Str × List Item))
+    (hlead : ∀ d ∈ docs, ∀ c ∈ d.1, c ≠ '{' ∧ c ≠ '}' ∧ c ≠ '"')
+    (trail : Str) (htrail : ∀ c ∈ trail, c ≠ '{' ∧ c ≠ '}' ∧ c ≠ '"') :
+    ∀ n, docs.length < n →
+      readAll n (plain (docsText docs ++ trail))
+        = (docs.map (fun d => flatNoWs (.obj d.2)), some (.eof [])) := by
+  induction docs with
+  | nil =>
+    intro n hn
+    cases n with
+    | zero => simp at hn
+    | succ f => simp [docsText, readAll, getJson_trail trail htrail]
+  | cons d ds ih =>
+    intro n hn
+    cases n with
+    | zero => simp at hn
+    | succ f =>
+      have hf : ds.length < f := by simp at hn; omega
+      have h1 := getJson_obj d.1 (hlead d (List.mem_cons_self ..)) d.2 (docsText ds ++ trail)
+      simp only [docsText, List.append_assoc] at h1 ⊢
+      simp only [readAll, h1, ih (fun x hx => hlead x (List.mem_cons_of_mem _ hx)) f hf,
+        List.map_cons]
+
+/-- `readAll` does not depend on the delivery schedule either -/
+theorem readAll_sched_free : ∀ (n : Nat) (s : Sched), Tame s = true →
+    readAll n s = readAll n (plain (bytesOf s)) := by
+  intro n
+  induction n with
+  | zero => intro s _; rfl
+  | succ f ih =>
+    intro s hs
+    have h := getJson_sched_free s {} hs
+    obtain ⟨y, hy⟩ := getJson_plain_rest (bytesOf s) {}
+    have hd := getJson_doc_tame s {}
+    simp only [readAll]
+    generalize getJson s {} = a at h hd
+    generalize getJson (plain (bytesOf s)) {} = b at h hy
+    obtain ⟨r1, s1⟩ := a
+    obtain ⟨r2, s2⟩ := b
+    simp only at h hy hd
+    obtain ⟨h1, h2⟩ := h
+    subst h1 hy
+    rw [bytesOf_plain] at h2
+    cases r1 with
+    | doc raw =>
+      simp only
+      rw [ih s1 (hd raw hs rfl), h2]
+    | eof raw => rfl
+    | noClose raw => rfl
+    | stray raw => rfl
+    | ioerr raw => rfl
 
 end Mxj.Stream
